@@ -25,7 +25,7 @@ N_IN = {"ecb_int": 1, "ecb_val": 1, "ecb_str": 1, "ecb_hex": 1, "ecb_instr": 3, 
 
 NUM = [("int", "INT( V )"), ("int2", "INT( V ) + INT( W )"), ("btn2", "BUTTON( 0 ) + BUTTON( 1 )"), ("joy2", "JOYSTK( 0 ) - JOYSTK( 1 )"), ("int_int", "INT( INT( V ) / 2 )"),
        ("abs_int", "ABS( INT( V ) )"), ("int_btn", "INT( BUTTON( 0 ) )"), ("point_btn", "POINT( BUTTON( 0 ) , 2 )"), ("elem_int", "M( INT( V ) )"), ("val_str", "VAL( STR$( V ) )"),
-       ("len_str", "LEN( STR$( V ) )"), ("instr", 'INSTR( 1 , V$ , "B" )'), ("btn_int", "BUTTON( INT( V ) )"), ("mix3", "INT( V ) * BUTTON( 1 ) + VAL( V$ )"), ("int_neg", "INT( - V / 2 )"), ("point_neg", "POINT( - V + 10 , W )"), ("int_not", "INT( NOT V )"), ("plain", "V + 1")]
+       ("len_str", "LEN( STR$( V ) )"), ("instr", 'INSTR( 1 , V$ , "B" )'), ("btn_int", "BUTTON( INT( V ) )"), ("mix3", "INT( V ) * BUTTON( 1 ) + VAL( V$ )"), ("neg_int", "- INT( V )"), ("not_int", "NOT INT( V )"), ("int_neg", "INT( - V / 2 )"), ("point_neg", "POINT( - V + 10 , W )"), ("int_not", "INT( NOT V )"), ("plain", "V + 1")]
 STR = [("str", "STR$( V )"), ("inkey", "INKEY$"), ("inkey2", "INKEY$ + INKEY$"), ("hex", "HEX$( V )"), ("string_int", 'STRING$( INT( V ) , "X" )'), ("left_str", "LEFT$( STR$( V ) , 2 )"),
        ("str_len_inkey", "STR$( LEN( INKEY$ ) )"), ("str_hex", "STR$( V ) + HEX$( W )"), ("chr_btn", "CHR$( BUTTON( 0 ) + 65 )"), ("plain", 'V$ + "!"')]
 
@@ -40,10 +40,14 @@ def gen(run):
         combos = []
         for i, x in enumerate(sl):
             for sn, st in (NUM if x == "n" else STR):
+                if sn in ("neg_int", "not_int") and body.startswith(("IF", "PRINT", "ON", "FOR")):
+                    continue  # a leading sign / NOT in a condition or PRINT item runs into known C01 / C03 findings (sign applied to the whole comparison, raw numeric PRINT)
                 sh = list(defaults)
                 sh[i] = st
                 combos.append((f"slot{i}={sn}", sh))
         for sn_n, st_n in NUM:
+            if sn_n in ("neg_int", "not_int") and body.startswith(("IF", "PRINT", "ON", "FOR")):
+                continue
             for sn_s, st_s in (STR if "s" in sl else [("-", "")]):
                 if len(sl) > 1:
                     combos.append((f"all={sn_n}/{sn_s}", [st_n if x == "n" else st_s for x in sl]))
@@ -84,6 +88,8 @@ def gen(run):
             continue
         seen = set()
         for sn_n, st_n in key_n:
+            if sn_n in ("neg_int", "not_int") and body.startswith("PRINT"):
+                continue
             for sn_s, st_s in (key_s if "s" in sl else [("-", "")]):
                 filled = K.fill(body, [st_n if x == "n" else st_s for x in sl])
                 for c in spaces.CONTEXTS[1:]:
